@@ -19,6 +19,8 @@ def run(rep):
     cr.rule_skel(rep)
     cr.rule_fields(rep)
     cr.rule_input(rep, "C06.isolation")
+    # "scenarios without steps still yield a pickle with no steps"
+    cr.rule_steps(rep, rid_order="C06.steps", rid_guard="C06.nosteps", want=("guard",))
     # the case analysis above reads the document by key presence ("examples", "tableHeader" ...): it relies on the builder
     # leaving optional members out rather than setting them to None
     sh.rule_shape(rep, "C06.shape", "C06.none")
